@@ -90,7 +90,9 @@ def operations_scope(w):
         for imp in c.impls:
             tr = imp.get("trait")
             st = model.ty_key(imp["self_ty"])
-            is_entry = (tr is not None and (tr.startswith("core::ops::arith::") or tr.startswith("core::cmp::Partial") or tr == "core::fmt::Display"
+            # (a local `fmt::Write` sink is driven by std's formatting machinery through a trait object: no resolved
+            # call edge leads to its `write_str`, so such impls are entries of their own)
+            is_entry = (tr is not None and (tr.startswith("core::ops::arith::") or tr.startswith("core::cmp::Partial") or tr in ("core::fmt::Display", "core::fmt::Write")
                                             or tr in SCOPE_TRAITS)) or (tr is None and st.split("<")[0] in SCOPE_TYPES)
             for it in imp["items"]:
                 if it.get("kind") != "fn":
